@@ -9,13 +9,14 @@ PROPERTY = 'C05'
 LEVEL = 'other'
 ED = ['is_complete', '_add_node', '_best_match', '_fringe_diagonal', '_next_fringe', '_cleanup', 'bounds', 'edits',
       'tighten_bounds']
-TARGETS = [('editdistance', f'levenshtein.EditDistance.{m}') for m in ED]
+TARGETS = [('editdistance', f'levenshtein.EditDistance.{m}') for m in ED] + [
+    ('editdistance_init', 'levenshtein.EditDistance.__init__'), ('editdistance_init', 'levenshtein.EditDistance.bounds')]
 TRUSTED = [
     'interface contracts for matrix cells of unknown class (protocol B) and TreeNode.edits',
     'make_distinct only tightens its arguments',
     'EditDistance.bounds, incomplete branch: no cell cost exceeds the constructor upper bound (explicit assume in ghost '
     'code; monitored by the C04 stand-in)',
-    'EditDistance.__init__ establishes the representation invariant (constructor not yet under contract)',
+    'EditDistance.__init__: constant_cost <= cost_upper_bound is an explicit assume (the popped nodes are a sub-multiset of one sequence; abstract heap contract)',
     'termination of the mutually recursive bounds/edits/_cleanup/tighten_bounds is not proved',
 ]
 ASSUMPTIONS = ['the progress printer setting (DEFAULT_PRINTER.quiet) is modelled as an arbitrary boolean at every read',
